@@ -1039,10 +1039,18 @@ func loopConsumes(info *types.Info, body *ast.BlockStmt, readers map[string]bool
 		switch x := st.(type) {
 		case *ast.SwitchStmt:
 			all := len(x.Body.List) > 0
+			hasDefault := false
 			for _, cl := range x.Body.List {
 				if !hasRead(cl) && !returns(cl) {
 					all = false
 				}
+				if cc, isCC := cl.(*ast.CaseClause); isCC && cc.List == nil {
+					hasDefault = true
+				}
+			}
+			// a value no clause matches consumes nothing: the switch needs a default that reads or returns
+			if !hasDefault {
+				all = false
 			}
 			if all {
 				readSeen = true
